@@ -129,6 +129,18 @@ def minimise(spec, sig, test_many, max_execs=300, wall_s=None):
     cand['strategy']['switches'] = []
     if try_one(cand):
         cur = cand
+    # 0b. the prehistory of an aged process: all of it, then ddmin
+    if cur.get('pre'):
+        cand = copy.deepcopy(cur)
+        cand['pre'] = []
+        if try_one(cand):
+            cur = cand
+        else:
+            def build_pre(items):
+                s_ = copy.deepcopy(cur)
+                s_['pre'] = items
+                return s_
+            cur['pre'] = _ddmin(list(cur['pre']), build_pre, test_many, b)
     # 1. whole clients (ids stay stable: a dropped client keeps an empty op list)
     for c in range(len(cur['clients'])):
         if not cur['clients'][c]:
